@@ -259,6 +259,9 @@ def run_mp(spec):
 
 
 def close(a, b):
+	import math as _m
+	if not (_m.isfinite(float(a)) and _m.isfinite(float(b))):
+		return float(a) == float(b)          # an infinite value is close to nothing finite
 	return abs(float(a) - float(b)) <= TOL * max(1.0, abs(float(a)), abs(float(b)))
 
 
